@@ -38,6 +38,7 @@ def check(run):
             run.note_drift("outside Allowed but owned by another property: " + re_.coarse_sig(o))
     traces_root.fixture_chain(run, owns)
     traces_root.random_pairs(run, 400 if quick else 8000, owns)
+    traces_root.big_pairs(run, 8 if quick else 100, owns)
 
 
 def replay(payload):
